@@ -350,7 +350,7 @@ func corrADTS(r *hx.Rng, n int, thorough bool) {
 			h, err := aac.NewADTSHeader(f, ch, ot, pl)
 			obs := "err"
 			if err == nil {
-				obs = "ok/" + adtsFields(h)
+				obs = "ok/" + adtsFields(h) + "/" + strconv.Itoa(int(h.Frequency()))
 			}
 			fmt.Fprintf(out, "HN\t%s\t%s\t%d\t%d\t%d\t%s\n", nextID("hn"), hx.HexI(int64(f)), ch, ot, pl, obs)
 		}
@@ -537,8 +537,12 @@ func searchADTS(r *hx.Rng, n int, thorough bool) {
 						fail("NewADTSHeader", "err", fmt.Sprintf("f=%d", tableFreqs[sfi]), "constructor rejects a table frequency")
 						continue
 					}
-					if int(p.SamplingFrequencyIndex) != sfi || int(p.Frequency()) != tableFreqs[sfi]&0xffff {
+					if int(p.SamplingFrequencyIndex) != sfi {
 						fail("NewADTSHeader", "index", fmt.Sprintf("f=%d", tableFreqs[sfi]), "wrong frequency index")
+					}
+					if int(p.Frequency()) != tableFreqs[sfi] && ch == 0 && pl == 0 { // one report per frequency
+						fail("ADTSHeader.Frequency", "uint16-wrap", fmt.Sprintf("NewADTSHeader(%d, %d, 2, %d).Frequency()", tableFreqs[sfi], ch, pl),
+							fmt.Sprintf("Frequency() returns %d for the table frequency %d (uint16 result)", p.Frequency(), tableFreqs[sfi]))
 					}
 					h = *p
 				} else {
@@ -685,6 +689,14 @@ func replay(site, witness string) {
 	case strings.HasPrefix(witness, "SetAACDescriptor("):
 		if _, err := fmt.Sscanf(witness, "SetAACDescriptor(%d, %d)", &a, &b); err == nil {
 			checkEntry(byte(a), b)
+		}
+	case strings.HasPrefix(witness, "NewADTSHeader("):
+		if _, err := fmt.Sscanf(witness, "NewADTSHeader(%d, %d, 2, %d).Frequency()", &a, &b, &c); err == nil {
+			evals++
+			p, err := aac.NewADTSHeader(a, byte(b), 2, uint16(c))
+			if err != nil || int(p.Frequency()) != a {
+				fail("ADTSHeader.Frequency", "uint16-wrap", witness, "Frequency() differs from the requested table frequency")
+			}
 		}
 	case strings.HasPrefix(witness, "ot="):
 		if _, err := fmt.Sscanf(witness, "ot=%d ch=%d f=%d e=%d", &a, &b, &c, &d); err == nil {
